@@ -19,7 +19,10 @@ def run(ctx):
         beh = mtblib.generate(ctx, MODE, [(1, 1), (2, 1), (2, 2), (3, 2)], 1, ("a", "b"), sample=1500)
         beh += mtblib.generate(ctx, MODE, [(2, 2), (2, 3), (3, 2)], 3, ("a", "b"), sample=1200, simulate=6000)
         share = 0.3
-    big_dims = ([(32, 2)] if MODE == "insertion" else [(31, 2)]) if ctx.quick else ([(32, 2), (32, 1), (31, 2), (20, 2), (16, 2), (8, 2)] if MODE == "insertion" else [(31, 2), (31, 1), (20, 2), (16, 2), (8, 2)])
+    # insertion trees deeper than 32 levels exist (no build-time limit): positions >= 2^32 are in the tree, but a start index there has no
+    # 32-bit encoding — MTBBig.tla's abstract meaning says such a batch cannot be asked for, the circuit must refuse it
+    big_dims = ([(32, 2), (33, 1), (40, 1)] if MODE == "insertion" else [(31, 2)]) if ctx.quick else \
+        ([(32, 2), (32, 1), (31, 2), (20, 2), (16, 2), (8, 2), (33, 1), (33, 2), (40, 1), (48, 2)] if MODE == "insertion" else [(31, 2), (31, 1), (20, 2), (16, 2), (8, 2)])
     beh += mtblib.generate_big(ctx, MODE, big_dims, sample=40 if ctx.quick else 400)
     n, acc = mtblib.replay(ctx, "C01", MODE, beh, share)
     mtblib.hint_level(ctx, MODE)
